@@ -26,6 +26,11 @@ def names(rng, tier):
     for _ in range(500 if tier == "quick" else 5000):
         out.append("".join(rng.choice(alphabet) for _ in range(rng.randrange(1, 14))))
     out += ["pkg.sub_mod._priv.name_x", "a.b_c.d", "tests.data.various_modules_package", "__init__", "__get__function___name__"]
+    # dotted package paths (the call sites pass them as one string): segments with underscores at either end
+    segs = ["a", "a_", "_a", "a_b", "a__b", "ab_", "__a__", "B_c", "filter_", "low_pass", "x1"]
+    out += [".".join(t) for k in (2, 3) for t in itertools.product(segs, repeat=k)]
+    for n in range(0, 6 if tier == "quick" else 8):
+        out += ["".join(t) for t in itertools.product("a_.", repeat=n)]
     return out
 
 
